@@ -6,6 +6,10 @@
               ALMSolver<PANOCSolver<LBFGS | StructuredLBFGS | Anderson | Noop Direction>>  — the SHIPPED default stacks —
                                                                      AlmPanocDir.alm_panoc_dir (Alm.v ∘ PanocDir.v with the providers of Directions.v;
                                                                      the provider state persists across inner solves)
+  zfpr-lbfgs / zfpr-struclbfgs / zfpr-anderson / zfpr-noop
+              ALMSolver<ZeroFPRSolver<LBFGS | StructuredLBFGS | Anderson | Noop Direction>>
+                                                                     AlmZeroFprDir.alm_zerofpr_dir (Alm.v ∘ ZeroFprDir.v with the providers of Directions.v;
+                                                                     provider state persisting across inner solves; update_direction_from_prox_step on/off)
 all composed by AlmCompose.v on a problem seen through the vtable model of AugLag.v.
 proof: Properties_C01.v (end-to-end theorems: the composed models return Converged only with an approximate KKT point of the user's problem);
 correspondence: Corr_ALMSTACKS.chkalmstacks — the composed models at binary64, instantiated with the drv_solve problem family (all provider masks,
@@ -22,14 +26,26 @@ from vf.props import PANOC, PANTR, FISTA, PANOCDIR, ALMPANOC
 INF = float("inf")
 SCRIPTED = ["zerofpr", "pantr", "fista"]
 PROVIDERS = ["lbfgs", "struclbfgs", "anderson", "noop"]
-STACKS = SCRIPTED + PROVIDERS
+ZPROVIDERS = ["zfpr-" + s for s in PROVIDERS]
+STACKS = SCRIPTED + PROVIDERS + ZPROVIDERS
+
+def provider(stack):
+    """the shipped direction provider of a provider stack (PANOC: the stack name itself; ZeroFPR: zfpr-<provider>), None for the scripted stacks"""
+    return stack[5:] if stack in ZPROVIDERS else stack if stack in PROVIDERS else None
+
+def zfpr_inner(stack):
+    return stack == "zerofpr" or stack in ZPROVIDERS
 REAL = dict(zerofpr="ALMSolver<ZeroFPRSolver<ScriptedDirection>>", pantr="ALMSolver<PANTRSolver<ScriptedTRDirection>>", fista="ALMSolver<FISTASolver>",
             lbfgs="ALMSolver<PANOCSolver<LBFGSDirection>>", struclbfgs="ALMSolver<PANOCSolver<StructuredLBFGSDirection>>",
             anderson="ALMSolver<PANOCSolver<AndersonDirection>>", noop="ALMSolver<PANOCSolver<NoopDirection>>")
+REAL.update({"zfpr-lbfgs": "ALMSolver<ZeroFPRSolver<LBFGSDirection>>", "zfpr-struclbfgs": "ALMSolver<ZeroFPRSolver<StructuredLBFGSDirection>>",
+             "zfpr-anderson": "ALMSolver<ZeroFPRSolver<AndersonDirection>>", "zfpr-noop": "ALMSolver<ZeroFPRSolver<NoopDirection>>"})
 MODEL = dict(zerofpr="AlmZeroFpr.alm_zerofpr", pantr="AlmPantr.alm_pantr", fista="AlmFista.alm_fista", lbfgs="AlmPanocDir.alm_panoc_dir (lbfgs_dir)",
              struclbfgs="AlmPanocDir.alm_panoc_dir (struct_dir)", anderson="AlmPanocDir.alm_panoc_dir (anderson_dir)", noop="AlmPanocDir.alm_panoc_dir (noop_dir)")
-REQUIRES = ("Prox SolverStatus SolverKernels AugLag Lbfgs LMQR Panoc ZeroFpr Pantr FistaLoop Directions PanocDir Alm AlmCompose AlmPanoc AlmZeroFpr AlmPantr "
-            "AlmFista AlmPanocDir Corr_PANOC Corr_ZEROFPR Corr_PANTR Corr_FISTA Corr_PANOCDIR Corr_ALMPANOC Corr_ALMSTACKS")
+MODEL.update({"zfpr-lbfgs": "AlmZeroFprDir.alm_zerofpr_dir (lbfgs_dir)", "zfpr-struclbfgs": "AlmZeroFprDir.alm_zerofpr_dir (struct_dir)",
+              "zfpr-anderson": "AlmZeroFprDir.alm_zerofpr_dir (anderson_dir)", "zfpr-noop": "AlmZeroFprDir.alm_zerofpr_dir (noop_dir)"})
+REQUIRES = ("Prox SolverStatus SolverKernels AugLag Lbfgs LMQR Panoc ZeroFpr Pantr FistaLoop Directions PanocDir ZeroFprDir Alm AlmCompose AlmPanoc AlmZeroFpr AlmPantr "
+            "AlmFista AlmPanocDir AlmZeroFprDir Corr_PANOC Corr_ZEROFPR Corr_PANTR Corr_FISTA Corr_PANOCDIR Corr_ALMPANOC Corr_ALMSTACKS")
 
 ZKEYS = dict(PANOC.KEYS, from_prox="solver.update_direction_from_prox_step")
 ZDEFAULTS = dict(PANOC.DEFAULTS, from_prox=False)
@@ -54,8 +70,8 @@ class Case:
         self.script = list(script)
         self.A, self.Dp = dict(A or {}), dict(Dp or {})
         self.always, self.tol, self.time0 = True, 0.0, False      # overridden by ALM (with_opts); placeholders for the per-solver term printers
-        self.accel = _Accel(stack, self.A, self.Dp)
-        keys = {"zerofpr": ZKEYS, "pantr": PANTR.KEYS, "fista": FISTA.KEYS}.get(stack, PANOC.KEYS)
+        self.accel = _Accel(provider(stack) or stack, self.A, self.Dp)
+        keys = ZKEYS if zfpr_inner(stack) else {"pantr": PANTR.KEYS, "fista": FISTA.KEYS}.get(stack, PANOC.KEYS)
         params = []
         for k, v in P.items():
             params.append("xcrit=%s" % v if k == "crit" else "%s=%s" % (keys[k], PANOC.pstr(v)))
@@ -71,8 +87,8 @@ class Case:
                 params.append("%s=%s" % (PANOCDIR.DIR_KEYS[k], PANOC.pstr(v)))
         for k, v in AP.items():
             params.append("%s=%s" % (ALMPANOC.AKEYS[k], PANOC.pstr(v)))
-        solver = stack if stack in SCRIPTED else "panoc"
-        direction = "-" if stack == "fista" else "scripted" if stack in SCRIPTED else stack
+        solver = stack if stack in SCRIPTED else "zerofpr" if stack in ZPROVIDERS else "panoc"
+        direction = "-" if stack == "fista" else "scripted" if stack in SCRIPTED else provider(stack)
         self.rq = sl.Request(prob, x0, y0, S0, solver, direction, mode, params, always=True, tol=0.0,
                              stop_at_eval=stop_eval, stop_at_cb=stop_cb, stop_at_dircall=stop_dir, script=self.script, script_initial=initial)
 
@@ -88,7 +104,7 @@ class Case:
         return self.AP.get(k, ALMPANOC.ADEFAULTS[k])
 
     def hv(self):
-        return self.stack == "struclbfgs" and self.accel.D_("hvf") != 0.0
+        return provider(self.stack) == "struclbfgs" and self.accel.D_("hvf") != 0.0
 
     inner_tol = ALMPANOC.Case.inner_tol
 
@@ -104,6 +120,8 @@ def coq_stack(cs):
         return "(StkPantr %s %s %s)" % (PANTR.coq_trparams(cs), coqlist([coqnat(v) for v in cs.script]), coqbool(cs.initial))
     if s == "fista":
         return "(StkFista %s)" % FISTA.coq_params(cs)
+    if s in ZPROVIDERS:
+        return "(StkZDir %s %s %s %s)" % (PANOC.coq_params(cs), coqbool(cs.P_("from_prox")), PANOCDIR.coq_sel(cs.accel), coqbool(cs.prob.hess))
     return "(StkDir %s %s %s)" % (PANOC.coq_params(cs), PANOCDIR.coq_sel(cs.accel), coqbool(cs.prob.hess))
 
 REC = dict(zerofpr=("RX", PANOC.coq_rec), pantr=("RY", PANTR.coq_rec), fista=("RF", FISTA.coq_rec))
@@ -156,6 +174,10 @@ def convert(ctx, stack, b):
     P = dict(b.P)
     kw = dict(stop_eval=b.stop_eval, stop_cb=b.stop_cb, stop_dir=b.stop_dir)
     script, initial, A, Dp = list(b.script), b.initial, {}, {}
+    prv = provider(stack)
+    if stack in ZPROVIDERS:
+        P = {k: v for k, v in P.items() if k not in ("eager", "tau_factor")}
+        if not dyadic and rng.random() < 0.4: P["from_prox"] = True
     if stack == "zerofpr":
         P = {k: v for k, v in P.items() if k not in ("eager", "tau_factor")}
         if not dyadic and rng.random() < 0.25: P["from_prox"] = True
@@ -183,18 +205,18 @@ def convert(ctx, stack, b):
         if kw["stop_dir"] >= 0: kw["stop_eval"], kw["stop_dir"] = kw["stop_dir"] * 4, -1      # no direction: inject at an evaluation instead
     else:
         script, initial = [], False
-        if stack == "struclbfgs" and not dyadic:
+        if prv == "struclbfgs" and not dyadic:
             # active box sides matter: tighter boxes, more often bounded (PANOCDIR.gen_random)
             if not conv or rng.random() < 0.5:
                 prob.Clb, prob.Cub = sl.gen_bounds(rng, prob.n, lo=-2.0, hi=2.0, p_free=0.2, p_one=0.3, p_eq=0.05)
             prob.hess = rng.random() < 0.6
-        if stack != "noop":
-            A, Dp = PANOCDIR.gen_accel(rng, stack)
+        if prv != "noop":
+            A, Dp = PANOCDIR.gen_accel(rng, prv)
             if conv or dyadic:
                 for k in ("cbfgs_eps", "cbfgs_alpha"): A.pop(k, None)
                 if A.get("memory", 1) == 0: A["memory"] = 2
         hv = Dp.get("hvf", 0.0) != 0.0
-        if stack == "struclbfgs" and hv and not Dp.get("fd", True):
+        if prv == "struclbfgs" and hv and not Dp.get("fd", True):
             prob.hess = rng.random() < 0.85            # exact Hessian-vector members (without them initialize throws)
         if kw["stop_dir"] >= 0: kw["stop_eval"], kw["stop_dir"] = kw["stop_dir"] * 4, -1      # the shipped providers are not instrumented
         if hv and kw["stop_eval"] >= 0: kw["stop_cb"], kw["stop_eval"] = kw["stop_eval"] // 8, -1   # Hessian-vector evaluations are not events of the loop model
@@ -204,7 +226,8 @@ def gen_cases(ctx, scale):
     """per stack: the dyadic tie cases, well-posed converging QPs and the random stream (with stop injection) of ALMPANOC.py"""
     out = []
     for stack in STACKS:
-        w = 1.0 if stack in ("lbfgs", "struclbfgs") else 0.75 if stack in SCRIPTED or stack == "anderson" else 0.35
+        w = (1.0 if stack in ("lbfgs", "struclbfgs") else 0.75 if stack in SCRIPTED or stack == "anderson" else 0.35 if stack == "noop" else
+             0.5 if stack in ("zfpr-lbfgs", "zfpr-struclbfgs") else 0.4 if stack == "zfpr-anderson" else 0.2)
         nc = max(6, int(w * scale * ctx.n(220, 1600)))
         nr = max(12, int(w * scale * ctx.n(420, 3400)))
         base = ALMPANOC.gen_dyadic(ctx)[::3 if stack != "lbfgs" else 1] + ALMPANOC.gen_converging(ctx, nc) + ALMPANOC.gen_random(ctx, nr)
@@ -215,17 +238,18 @@ def gen_cases(ctx, scale):
 def exception_expected(cs, msg):
     """the only exceptions a shipped provider may raise on this problem family (PANOCDIR.oracle)"""
     a = cs.accel
-    return (cs.stack in PROVIDERS and cs.stack != "noop" and
+    prv = provider(cs.stack)
+    return (prv is not None and prv != "noop" and
             (("memory must be >= 1" in msg and a.A_("memory") < 1) or
-             ("CBFGS check not supported" in msg and cs.stack == "struclbfgs" and a.A_("cbfgs_eps") > 0) or
-             ("Structured L-BFGS requires" in msg and cs.stack == "struclbfgs" and a.D_("hvf") != 0 and not a.D_("fd") and not cs.prob.hess)))
+             ("CBFGS check not supported" in msg and prv == "struclbfgs" and a.A_("cbfgs_eps") > 0) or
+             ("Structured L-BFGS requires" in msg and prv == "struclbfgs" and a.D_("hvf") != 0 and not a.D_("fd") and not cs.prob.hess)))
 
 def oracle(cs, o):
     if "exc" in o:
         if exception_expected(cs, o["exc"]): return []
         return [("ALMPANOC:unexpected-exception", "exception %r (accel=%r dir=%r)" % (o["exc"], cs.A, cs.Dp))]
     bad = ALMPANOC.oracle(cs, o)
-    if cs.stack in PROVIDERS and o["dircalls"] != 0:
+    if provider(cs.stack) and o["dircalls"] != 0:
         bad.append(("ALMPANOC:dircalls-of-uninstrumented-provider", "dircalls=%d" % o["dircalls"]))
     return bad
 
@@ -238,7 +262,7 @@ class _Shim:
 def near_tie(cs, o):
     """decisions within a tie margin: the inner solver's (per inner solve, with that solve's tolerance; the margin of the per-solver check:
     1e-9 relative for the scripted stacks, 2 ulp — PANOCDIR.near_tie — for the shipped providers) and ALM's termination test"""
-    tight = cs.stack in PROVIDERS
+    tight = provider(cs.stack) is not None
     rel = 2.0 ** -51 if tight else 1e-9
     inner = PANOCDIR.near_tie if tight else {"zerofpr": PANOC.near_tie, "pantr": PANTR.near_tie, "fista": FISTA.near_tie}[cs.stack]
     by_outer = {}
@@ -261,26 +285,27 @@ def signature(cs, o):
     recs = o["records"]
     inner = "".join(r["status"][0] + ("" if r["status"] != "MaxIter" else "i") for r in recs if r["status"] != "Busy")[:6]
     flags = "".join(k[0] for k in ("eager", "recompute", "upd", "force", "from_prox", "noaccel") if cs.P.get(k)) + ("S" if cs.A_("single") else "") + ("P" if cs.rq.prov else "")
-    if cs.stack in PROVIDERS and cs.stack != "noop":
+    prv = provider(cs.stack)
+    if prv and prv != "noop":
         a = cs.accel
         flags += "/m%d" % min(a.A_("memory"), 6)
-        if cs.stack != "anderson":
+        if prv != "anderson":
             flags += ("c" if a.A_("cbfgs_eps") > 0 else "") + ("" if a.A_("curvature") else "x") + ("" if a.A_("force_pos_def") else "n")
-        if cs.stack in ("lbfgs", "anderson") and a.D_("rescale"): flags += "r"
-        if cs.stack == "struclbfgs":
+        if prv in ("lbfgs", "anderson") and a.D_("rescale"): flags += "r"
+        if prv == "struclbfgs":
             flags += ("H" + ("f" if a.D_("fd") else "e") + ("a" if a.D_("full_aug") else "l") if a.D_("hvf") != 0 else "") + ("s" if a.D_("use_scaled") else "")
     stopk = "E" if cs.stop_eval >= 0 else "C" if cs.stop_cb >= 0 else "D" if cs.stop_dir >= 0 else "-"
     return "almstacks/%s/%s/%s/%s/m%d/%s/%s/%s" % (cs.stack, o.get("status", "exc"), o.get("outer_iterations", "-"), inner, cs.prob.m, flags, stopk, cs.mode)
 
 # ------------------------------------------------------------------ run
 def run(ctx):
-    ctx.coverage["rule"] = ("whole runs of ALMSolver over ZeroFPR / PANTR (scripted directions with global call index), FISTA and PANOC with the four SHIPPED direction providers "
+    ctx.coverage["rule"] = ("whole runs of ALMSolver over ZeroFPR / PANTR (scripted directions with global call index), FISTA, and PANOC and ZeroFPR (update_direction_from_prox_step on/off) with the four SHIPPED direction providers "
                             "(LBFGS, StructuredLBFGS incl. Hessian-vector term by finite differences / eval_hess_L_prod / eval_hess_ψ_prod and both failure policies, Anderson, Noop; "
                             "memory 1..5 and 10, CBFGS, rescaling, provider state persisting across inner solves, provider exceptions) on the drv_solve problem family (n<=3, m<=3 incl. m=0, "
                             "boxes C and D with free / one-sided / range / equal rows, penalty_alm_split, provider masks = problem-supplied combined members with poisoned work buffers), "
                             "alm.max_iter<=6, solver.max_iter<=15, varied ALM parameters (tolerances, penalty update / initial penalty incl. automatic, tolerance update, increase threshold, "
                             "max_multiplier, max/min penalty, single factor; caller Sigma valid / zero / non-finite / absent) and inner-solver parameters, stop() injected at cumulative "
-                            "evaluation / callback / direction-call indices; one evaluation = one whole ALM run compared with the composed model (AlmZeroFpr / AlmPantr / AlmFista / AlmPanocDir) "
+                            "evaluation / callback / direction-call indices; one evaluation = one whole ALM run compared with the composed model (AlmZeroFpr / AlmPantr / AlmFista / AlmPanocDir / AlmZeroFprDir) "
                             "at binary64 (final statistics, x, y, Sigma, counts, every callback record of every inner solve); distinct = (stack, status, outer iterations, inner statuses, flags)")
     ctx.assumptions += ["theorems over ideal reals (binary64 rounding is covered by the whole-run correspondence only)",
                         "problem functions, direction provider, stop flag and clocks are arbitrary oracles in the theorems; provider_ok / grad_g_prod_empty_ok are hypotheses (C04)",
@@ -292,7 +317,7 @@ def run(ctx):
 def attach(ctx, scale=1.5, extra_oracle=None):
     """used by C01: run the whole-run correspondence of the composed models AlmZeroFpr / AlmPantr / AlmFista / AlmPanocDir against the real stacks and
     evaluate the calling property's own predicate on each of these runs; violations get the calling property's prefix"""
-    ctx.assumptions.append("composed ALM/ZeroFPR, ALM/PANTR, ALM/FISTA and ALM/PANOC+shipped-provider models (AlmZeroFpr.v, AlmPantr.v, AlmFista.v, AlmPanocDir.v; end-to-end theorems of "
+    ctx.assumptions.append("composed ALM/ZeroFPR, ALM/PANTR, ALM/FISTA, ALM/PANOC+shipped-provider and ALM/ZeroFPR+shipped-provider models (AlmZeroFpr.v, AlmPantr.v, AlmFista.v, AlmPanocDir.v, AlmZeroFprDir.v; end-to-end theorems of "
                            "Properties_C01.v) attached: whole runs of the real stacks must coincide with the verified models at binary64")
     run_corr(ctx, ctx.pid, scale, extra_oracle)
 
@@ -325,14 +350,14 @@ def run_corr(ctx, prefix, scale, extra_oracle=None):
         ctx.count("almstacks/%s/status/%s" % (cs.stack, o.get("status", "exception")))
         ncase[cs.stack] += 1
         if o.get("status") == "Converged": nconv[cs.stack] += 1
-        if cs.stack in PROVIDERS and any(sl.D(r, "tau") > 0 for r in o["records"] if r["status"] == "Busy"):
+        if provider(cs.stack) and any(sl.D(r, "tau") > 0 for r in o["records"] if r["status"] == "Busy"):
             ctx.count("almstacks/%s/runs-with-accepted-accelerated-step" % cs.stack)
             if any(r["outer"] > 0 and r["k"] == 1 and sl.D(r, "tau") > 0 for r in o["records"] if r["status"] == "Busy"):
                 ctx.count("almstacks/%s/runs-with-accelerated-step-at-k=1-of-a-later-inner-solve" % cs.stack)
         terms.append(coq_case(cs, o)); owners.append((cs, o))
     ctx.coverage["almstacks_whole_run_cases"] = dict(ncase)
     ctx.coverage["almstacks_converged_runs"] = dict(nconv)
-    ctx.coverage["almstacks_provider_exceptions"] = {s: nexc[s] for s in STACKS if s in PROVIDERS}
+    ctx.coverage["almstacks_provider_exceptions"] = {s: nexc[s] for s in STACKS if provider(s)}
     failing = coq_failing_cases(ctx, "almstacksrun", REQUIRES, "skcase", "chkalmstacks", terms, shard=max(10, min(48, len(terms) // (4 * NPROC))), dump="modelalmstacks")
     if failing is None:
         return
